@@ -5,10 +5,11 @@ import numpy as np
 from common import *
 
 ID = 'C08'
-COQ_FILES = ['Base/Mat.v', 'Base/SumQ.v', 'Base/ListX.v', 'Model/Between.v', 'Proofs/BetweenAccum.v',
+COQ_FILES = ['Base/Mat.v', 'Base/SumQ.v', 'Base/ListX.v', 'Model/Between.v', 'Model/BetweenQ.v', 'Proofs/BetweenAccum.v',
              'Proofs/BetweenReady.v', 'Proofs/BetweenQueue.v', 'Proofs/BetweenBin.v', 'Proofs/BetweenSpec.v', 'Proofs/BetweenPaths.v',
              'Proofs/BetweenTight.v', 'Proofs/BetweenLast.v', 'Proofs/BetweenCount.v', 'Proofs/BetweenFull.v',
-             'Proofs/BetweenBfs.v', 'Proofs/BetweenPow.v', 'Proofs/BetweenScale.v', 'Properties/C08.v']
+             'Proofs/BetweenBfs.v', 'Proofs/BetweenPow.v', 'Proofs/BetweenScale.v', 'Proofs/BetweenCorol.v', 'Proofs/BetweenRat.v',
+             'Properties/C08.v']
 THEOREMS = ['C08_spec_enumeration_faithful', 'C08_dist_spec_correct', 'C08_shortest_walks_simple',
             'C08_bin_sum_BC', 'C08_bin_sum_EBC', 'C08_brandes_accumulation', 'C08_brandes_accumulation_node',
             'C08_dag_counts_exist', 'C08_queue_slots_wei', 'C08_queue_slots_bin',
@@ -17,7 +18,9 @@ THEOREMS = ['C08_spec_enumeration_faithful', 'C08_dist_spec_correct', 'C08_short
             'C08_matrix_power_counts', 'C08_bc_bin_forward', 'C08_bc_bin_back_pass', 'C08_bc_bin_correct',
             'C08_bc_correct', 'C08_ebc_node_vector_eq_bc_bin', 'C08_wei_eq_bin_on_binary',
             'C08_spec_scale_invariant', 'C08_wei_scale_invariant',
-            'C08_ebc_node_vector_eq_bc_wei']
+            'C08_ebc_node_vector_eq_bc_wei',
+            'C08_bin_sum_routines', 'C08_ebc_bin_ignores_weights', 'C08_bc_bin_weighted_refuted',
+            'C08_weiQ_reduce', 'C08_weiQ_of_fraction', 'C08_bc_weiQ_correct', 'C08_weiQ_scale_invariant']
 RULE = ('every labelled digraph on n<=3 nodes (n<=4 thorough, a random slice of n=4 in quick), every labelled undirected '
         'graph on n<=4 nodes (n<=5 thorough, a slice of n=5 in quick); random directed / undirected graphs n=2..7 with '
         'integer connection lengths drawn from {1,2,3} or {1,2} (many exact ties between alternative routes) at densities '
@@ -131,6 +134,82 @@ def close_mat(fr, X):
     if X.shape != (n, n):
         return False
     return all(close_vec(fr[i], X[i]) for i in range(n))
+
+
+# ---------------------------------------------------------------- polynomial pair-counting oracle (any n)
+def oracle_pairs(Lx, zero=0):
+    """BC / EBC by the textbook pair formula, NOT by dependency accumulation and without enumerating paths:
+    for every source s: distances (O(n^2) Dijkstra), the tight connections v->w (D[v] + len == D[w]), sigma_s[w] by
+    summing over tight predecessors in order of distance; for every target t: c[v] = number of tight routes v -> t
+    (backwards from t); node v strictly between s and t gets sigma_s[v]*c[v]/sigma_s[t], the tight connection v->w gets
+    sigma_s[v]*c[w]/sigma_s[t].  All counts are Python ints, values Fractions.
+    Lx[i][j]: None = no connection, otherwise the length.  ints / Fractions: exact lengths.  Python floats: the length of
+    a route is its left-to-right binary64 sum and two routes tie when those sums are the same double (what a routine
+    that accumulates D[v] + G[v,w] in binary64 decides) - used only to recognise the known rounding finding.
+    -> (BC, EBC, D per source, largest path count)"""
+    n = len(Lx)
+    adj = [[(w, Lx[v][w]) for w in range(n) if w != v and Lx[v][w] is not None] for v in range(n)]
+    BC = [F(0)] * n
+    EBC = [[F(0)] * n for _ in range(n)]
+    Dall, maxsig = [], 0
+    for s in range(n):
+        D = [None] * n
+        D[s] = zero
+        done = [False] * n
+        order = []
+        for _ in range(n):
+            v = None
+            for x in range(n):
+                if not done[x] and D[x] is not None and (v is None or D[x] < D[v]):
+                    v = x
+            if v is None:
+                break
+            done[v] = True
+            order.append(v)
+            for w, l in adj[v]:
+                if not done[w]:
+                    x = D[v] + l
+                    if D[w] is None or x < D[w]:
+                        D[w] = x
+        Dall.append(D)
+        preds = [[] for _ in range(n)]
+        for v in order:
+            for w, l in adj[v]:
+                if D[w] is not None and D[v] < D[w] and D[v] + l == D[w]:
+                    preds[w].append(v)
+        sig = [0] * n
+        sig[s] = 1
+        for w in order[1:]:
+            sig[w] = sum(sig[v] for v in preds[w])
+        maxsig = max(maxsig, max(sig))
+        for pos in range(1, len(order)):
+            t = order[pos]
+            c = {t: 1}
+            st = sig[t]
+            for w in reversed(order[1:pos + 1]):
+                cw = c.get(w)
+                if not cw:
+                    continue
+                if w != t:
+                    BC[w] += F(sig[w] * cw, st)
+                for v in preds[w]:
+                    c[v] = c.get(v, 0) + cw
+                    EBC[v][w] += F(sig[v] * cw, st)
+    return BC, EBC, Dall, maxsig
+
+
+def to_lx(L, conv=int):
+    n = len(L)
+    return [[conv(L[i][j]) if (L[i][j] and i != j) else None for j in range(n)] for i in range(n)]
+
+
+def enc_qb(x):
+    """exact rational for the OCaml reader: binary numerals (decimal ints beyond 2^62 overflow there; zero is '0')"""
+    x = F(x)
+    if x == 0:
+        return '0'
+    a = ('-0b' if x < 0 else '0b') + bin(abs(x.numerator))[2:]
+    return a if x.denominator == 1 else a + '/0b' + bin(x.denominator)[2:]
 
 
 # ---------------------------------------------------------------- generators (integer length matrices)
@@ -314,6 +393,104 @@ def near_tie_square(eps_num, k):
     return L
 
 
+# ---------------------------------------------------------------- larger graphs (oracle_pairs only, no model lines)
+def g_grid_wh(r, w, h, vals):
+    n = w * h
+    A = np.zeros((n, n), dtype=int)
+    for y in range(h):
+        for x in range(w):
+            v = y * w + x
+            if x + 1 < w:
+                A[v, v + 1] = A[v + 1, v] = r.choice(vals)
+            if y + 1 < h:
+                A[v, v + w] = A[v + w, v] = r.choice(vals)
+    return A
+
+
+def g_layered(r, widths, directed, lens=None, ends=True):
+    """(source -) layers of the given widths (complete bipartite between consecutive layers) (- sink); the length of a
+    connection depends on its layer only (lens[k], default 1), so that every route between two nodes has the same
+    length: path counts multiply (7^9 > 2^24 between layers ten apart).  Node labels are shuffled."""
+    layers, n = [], 0
+    for wd in ([1] + list(widths) + [1] if ends else list(widths)):
+        layers.append(list(range(n, n + wd)))
+        n += wd
+    A = np.zeros((n, n), dtype=object if lens is not None and not all(float(x).is_integer() for x in lens) else int)
+    for k, (la, lb) in enumerate(zip(layers, layers[1:])):
+        for a in la:
+            for b in lb:
+                A[a, b] = 1 if lens is None else lens[k]
+                if not directed:
+                    A[b, a] = A[a, b]
+    p = r.permutation(n)
+    return A[np.ix_(p, p)]
+
+
+def big_graph(ctx):
+    """-> (family, integer length matrix) with n = 12..36: path counts beyond 127 (int8) on grids / dense binary graphs"""
+    r = ctx.nprng
+    k = int(r.randint(0, 8))
+    vals = [[1], [1, 2, 3], [1, 2], [1]][int(r.randint(0, 4))]
+    if k <= 1:
+        n = int(r.choice([12, 16, 20, 24, 30]))
+        d = bool(r.rand() < 0.5)
+        return ('big_er_dir' if d else 'big_er_und'), g_random(r, n, d, vals, float(r.choice([0.08, 0.15, 0.3, 0.6])))
+    if k == 2:
+        w, h = [(6, 6), (5, 6), (4, 7), (3, 10), (6, 5)][int(r.randint(0, 5))]
+        return 'big_grid', g_grid_wh(r, w, h, [1] if r.rand() < 0.7 else vals)
+    if k == 3:
+        n = int(r.randint(12, 31))
+        return 'big_ring_chords', (g_cycle_chords(r, n, vals) if r.rand() < 0.5 else und(g_cycle_chords(r, n, vals)))
+    if k == 4:
+        n = int(r.randint(12, 31))
+        return 'big_tree_chords', g_tree_chords(r, n, vals)
+    if k == 5:
+        n = int(r.randint(12, 25))
+        return 'big_union', g_union(r, n, vals)
+    if k == 6:
+        n = int(r.randint(12, 25))
+        return 'big_isolated', g_isolated(r, n, vals)
+    widths = [int(r.choice([2, 3, 4])) for _ in range(int(r.randint(3, 8)))]
+    return 'big_layered', g_layered(r, widths, bool(r.rand() < 0.5))
+
+
+# ---------------------------------------------------------------- decimal (non-dyadic) lengths
+DECIMALS = [0.1, 0.2, 0.3, 0.7, 0.9, 1.1, 1.0 / 3.0, 0.6]
+TIE_KEY_N = 'betweenness_wei[rounded-lengths]:tie'
+TIE_KEY_E = 'edge_betweenness_wei[rounded-lengths]:tie'
+
+
+def rounding_witness():
+    """two routes 0->5 made of the SAME three binary64 lengths in opposite order: (.1+.2)+.3 = 0.6000000000000001, (.3+.2)+.1 = 0.6"""
+    G = np.zeros((6, 6))
+    G[0, 1], G[1, 2], G[2, 5] = .1, .2, .3
+    G[0, 3], G[3, 4], G[4, 5] = .3, .2, .1
+    return G
+
+
+def decimal_graph(ctx):
+    """-> (family, float matrix): lengths k/10 (k = 1..3 or 1..9) or from DECIMALS on the structured families, or layered
+    graphs whose length depends on the layer only (all tied routes add the same doubles in the same order: the ties are
+    exact in binary64 although no length is a dyadic rational)"""
+    r = ctx.nprng
+    k = int(r.randint(0, 4))
+    if k == 0:
+        widths = [int(r.choice([1, 2, 3])) for _ in range(int(r.randint(1, 4)))]
+        lens = [float(r.choice(DECIMALS)) for _ in range(len(widths) + 1)]
+        return 'decimal_layered', np.array(g_layered(r, widths, bool(r.rand() < 0.5), lens), dtype=float)
+    fam, B = random_graph(ctx)
+    B = np.asarray(B, dtype=float)
+    if k == 1:
+        return 'tenths_' + fam, B / 10.0                     # {.1,.2,.3}: .1+.2 != .3 in binary64, (.1+.2)+.3 != (.3+.2)+.1
+    if k == 2:
+        T = np.array([0.0] + [float(r.choice(DECIMALS)) for _ in range(3)])
+        return 'decimal_' + fam, T[B.astype(int)]
+    M = (B != 0) * r.randint(1, 10, size=B.shape)
+    if np.array_equal(B, B.T):
+        M = und(M)
+    return 'tenths9_' + fam, M / 10.0
+
+
 def all_digraphs(n):
     cells = [(i, j) for i in range(n) for j in range(n) if i != j]
     for bits in range(1 << len(cells)):
@@ -342,17 +519,18 @@ class Runner:
         self.seen = set()
         self.timeouts = {}          # routine -> number of calls that did not terminate
 
-    def impl(self, f, M, key, case, scale_pow=0):
+    def impl(self, f, M, key, case, scale_pow=0, raw=False, t=10.0):
         if self.timeouts.get(key, 0) >= 3:
             return None             # this routine hangs (reported three times with concrete inputs): stop calling it
         try:
             # lengths = integers * 2**scale_pow: exact in binary64 (numerators < 2**40, sums of <= 7 of them < 2**53)
-            r = call(f, M.astype(float) * (2.0 ** scale_pow), _t=10.0)
+            # raw: the array exactly as built (its own dtype / its own binary64 values), a private copy
+            r = call(f, (M.copy() if raw else M.astype(float) * (2.0 ** scale_pow)), _t=t)
             tie_variants(case)          # input-representation layer: the model comparison of this case is batched and comes later
             return r
         except Timeout:
             self.timeouts[key] = self.timeouts.get(key, 0) + 1
-            self.ctx.fail(key + ':raises', 'does not terminate within 10 s', case)
+            self.ctx.fail(key + ':raises', 'does not terminate within %g s' % t, case)
         except Exception as e:
             self.ctx.fail(key + ':raises', 'raised %r' % (e,), case)
         return None
@@ -382,6 +560,11 @@ class Runner:
                 b2, e2 = oracle_simple(M.tolist())
                 if b2 != b or e2 != e:
                     ctx.errors.append('the two oracles disagree on %r' % (M.tolist(),))
+        if ctx.rng.random() < 0.25:
+            for M, (b, e) in ((A, (BCb, EBCb)), (L, (BCw, EBCw))):
+                b3, e3 = oracle_pairs(to_lx(M.tolist()))[:2]
+                if b3 != b or e3 != e:
+                    ctx.errors.append('oracle_pairs and oracle_dag disagree on %r' % (M.tolist(),))
         reach = [(s, t) for s in range(n) for t in range(n) if s != t and Db[s][t] is not None]
         nontriv = any(Db[s][t] >= 2 for s, t in reach)
         ctx.count('connected' if len(reach) == n * n - n else 'disconnected')
@@ -463,6 +646,27 @@ class Runner:
             if tag == 'len':
                 self.lines.append('bc_wei ' + enc_mat(M.tolist())); self.pend.append(('bc', 'betweenness_wei', case, bcw))
                 self.lines.append('ebc_wei ' + enc_mat(M.tolist())); self.pend.append(('ebc', 'edge_betweenness_wei', case2, r))
+                if sp != 0:
+                    # the RATIONAL-length model (Model/BetweenQ.v) on exactly the binary64 values the implementation was given;
+                    # C08_weiQ_of_fraction: it returns the very values of the integer model on the numerators (checked: 'qz')
+                    Mq = [[F(int(x)) * F(2) ** sp for x in row] for row in M.tolist()]
+                    zi = len(self.lines) - 2
+                    self.lines.append('bc_weiq ' + enc_mat(Mq, enc_qb)); self.pend.append(('bc', 'betweenness_wei(Q model)', case, bcw, zi))
+                    self.lines.append('ebc_weiq ' + enc_mat(Mq, enc_qb)); self.pend.append(('ebc', 'edge_betweenness_wei(Q model)', case2, r, zi + 1))
+
+        # ---- a matrix that is not 0/1 handed to the binary routines (outside the documented domain; correspondence only):
+        # edge_betweenness_bin reads it through `!= 0` (C08_ebc_bin_ignores_weights), betweenness_bin does not binarise
+        # (C08_bc_bin_weighted_refuted) - the models must follow the code there too
+        if not binary and scale_pow == 0 and ctx.rng.random() < 0.15:
+            casew = {'fn': 'betweenness_bin(non-binary matrix)', 'G': L.tolist()}
+            with np.errstate(all='ignore'):
+                bcx = self.impl(bct.betweenness_bin, L, 'betweenness_bin(non-binary)', casew)
+            self.lines.append('bc_bin ' + enc_mat(L.tolist())); self.pend.append(('bc', 'betweenness_bin(non-binary matrix)', casew, bcx))
+            casew = {'fn': 'edge_betweenness_bin(non-binary matrix)', 'G': L.tolist()}
+            rx = self.impl(bct.edge_betweenness_bin, L, 'edge_betweenness_bin(non-binary)', casew)
+            self.lines.append('ebc_bin ' + enc_mat(L.tolist())); self.pend.append(('ebc', 'edge_betweenness_bin(non-binary matrix)', casew, rx))
+            if rx is not None and bin_ebc is not None:
+                ctx.count('ebc_bin_nonbinary_equals_support' if (np.array_equal(rx[0], bin_ebc[0]) and np.array_equal(rx[1], bin_ebc[1])) else 'ebc_bin_nonbinary_DIFFERS_from_support')
 
         # ---- the Coq SPECIFICATION itself (enumeration of node lists), tiny graphs only
         if spec and n <= 4:
@@ -476,13 +680,186 @@ class Runner:
             self.lines.append('search 0 ' + enc_mat(A.tolist()) + ' %d' % u)
             self.pend.append(('search', 'search_b', {'fn': 'search(binary)', 'G': A.tolist(), 'u': u}, Db[u]))
 
+    # ------------------------------------------------------------------ larger graphs: oracle only
+    def check4(self, A, L, orc_b, orc_w, case0, nontriv, conv=None, tag='', t=10.0):
+        """the four routines on the 0/1 pattern A / the length matrix L (handed over as conv(A), conv(L); default float64)
+        against precomputed oracle values; keys as in graph(), suffixed with [tag] for other dtypes"""
+        ctx, bct = self.ctx, self.bct
+        raw = conv is not None
+        Ax, Lx_ = (conv(A), conv(L)) if raw else (A, L)
+        BCb, EBCb = orc_b
+        BCw, EBCw = orc_w
+        sfx = '[%s]' % tag if tag else ''
+        out = {}
+        for fn, M, BCo, EBCo in (('betweenness_bin', Ax, BCb, None), ('edge_betweenness_bin', Ax, BCb, EBCb),
+                                 ('betweenness_wei', Lx_, BCw, None), ('edge_betweenness_wei', Lx_, BCw, EBCw)):
+            case = dict(case0, fn=fn)
+            if tag:
+                case['dtype'] = tag
+            ctx.case(case, nontrivial=nontriv)
+            r = self.impl(getattr(bct, fn), M, fn + sfx, case, raw=raw, t=t)
+            out[fn] = r
+            if r is None:
+                continue
+            if EBCo is None:
+                ctx.check(close_vec(BCo, r), fn + ':value' + sfx,
+                          'node betweenness differs from the pair-counting oracle: got %s want %s' % (np.asarray(r).tolist(), [str(x) for x in BCo]), case)
+            else:
+                ctx.check(close_mat(EBCo, r[0]), fn + ':ebc' + sfx, 'connection betweenness differs from the pair-counting oracle', case)
+                ctx.check(close_vec(BCo, r[1]), fn + ':bc' + sfx,
+                          'node vector differs from the pair-counting oracle: got %s want %s' % (np.asarray(r[1]).tolist(), [str(x) for x in BCo]), case)
+                ctx.check(bool(np.all((np.asarray(r[0]) == 0) | (np.asarray(A) != 0))), fn + ':support' + sfx, 'a non-connection has a nonzero value', case)
+        return out
+
+    def big(self, L, fam, dtypes=()):
+        ctx = self.ctx
+        L = np.asarray(L, dtype=np.int64)
+        n = len(L)
+        h = jhash(['big', L.tolist()])
+        if h in self.seen:
+            return
+        self.seen.add(h)
+        A = (L != 0).astype(np.int64)
+        binary = bool(np.array_equal(A, L))
+        BCb, EBCb, Db, sgb = oracle_pairs(to_lx(A.tolist()))
+        BCw, EBCw, Dw, sgw = (BCb, EBCb, Db, sgb) if binary else oracle_pairs(to_lx(L.tolist()))
+        ctx.count('family:' + fam)
+        ctx.count('n>=12' if n >= 12 else 'n=%d(dtype copies)' % n)
+        sg = max(sgb, sgw)
+        ctx.count('paths>2^24' if sg > 2 ** 24 else 'paths>127' if sg > 127 else 'paths<=127')
+        if sg >= 2 ** 53:
+            return                  # path counts beyond what binary64 holds exactly: outside what is compared
+        nontriv = any(d is not None and d >= 2 for row in Db for d in row)
+        case0 = {'family': fam, 'G': L.tolist()}
+        res = self.check4(A, L, (BCb, EBCb), (BCw, EBCw), case0, nontriv)
+        reach = [(s, t) for s in range(n) for t in range(n) if s != t and Db[s][t] is not None]
+        if res['betweenness_bin'] is not None:
+            want = sum(Db[s][t] - 1 for s, t in reach)
+            ctx.check(abs(float(np.sum(res['betweenness_bin'])) - want) <= TOL * max(1, want), 'betweenness_bin:sum_identity',
+                      'sum of node values is not sum(distance-1) over reachable ordered pairs', dict(case0, fn='betweenness_bin'))
+        if res['edge_betweenness_bin'] is not None:
+            want = sum(Db[s][t] for s, t in reach)
+            ctx.check(abs(float(np.sum(res['edge_betweenness_bin'][0])) - want) <= TOL * max(1, want), 'edge_betweenness_bin:sum_identity',
+                      'sum of connection values is not sum(distance) over reachable ordered pairs', dict(case0, fn='edge_betweenness_bin'))
+        for dt in dtypes:
+            self.dtype_copy(A, L, (BCb, EBCb), (BCw, EBCw), case0, nontriv, dt)
+
+    def dtype_copy(self, A, L, orc_b, orc_w, case0, nontriv, dt):
+        """the same network stored with another element type (small integer lengths: every listed type holds them exactly)"""
+        if dt == 'bool' and not np.array_equal(A, L):
+            L = A
+            orc_w = orc_b
+        if dt == 'int8' and L.max() > 127:
+            return
+        self.ctx.count('dtype:' + dt)
+        self.check4(A, L, orc_b, orc_w, case0, nontriv, conv=lambda X: np.asarray(X).astype(dt), tag=dt)
+
+    def longpath(self, n, fam):
+        """n >= 129 nodes on a shuffled path (+ optionally closing it to an even ring): closed forms, no oracle run.
+        path: the node at position i lies on 2*i*(n-1-i) ordered pairs, the connection between positions i, i+1 on (i+1)*(n-1-i)
+        in each direction; even ring C_n: every node (n-2)^2/4, every connection n^2/8 in each direction (antipodal pairs have
+        two routes).  Node indices beyond 127 sit in the queue."""
+        ctx, r = self.ctx, self.ctx.nprng
+        order = [int(x) for x in r.permutation(n)]
+        ring = fam == 'long_ring'
+        L = np.zeros((n, n), dtype=np.int64)
+        vals = [1] if (ring or r.rand() < 0.5) else [1, 2, 3]
+        for a, b in zip(order, order[1:] + ([order[0]] if ring else [])):
+            L[a, b] = L[b, a] = int(r.choice(vals))
+        A = (L != 0).astype(np.int64)
+        BC = [F(0)] * n
+        EBC = [[F(0)] * n for _ in range(n)]
+        for i, v in enumerate(order):
+            BC[v] = F((n - 2) ** 2, 4) if ring else F(2 * i * (n - 1 - i))
+        for i, (a, b) in enumerate(zip(order, order[1:] + ([order[0]] if ring else []))):
+            EBC[a][b] = EBC[b][a] = F(n * n, 8) if ring else F((i + 1) * (n - 1 - i))
+        if ctx.thorough:
+            b3, e3 = oracle_pairs(to_lx(L.tolist()))[:2]
+            if b3 != BC or e3 != EBC:
+                ctx.errors.append('closed form and oracle_pairs disagree on %s n=%d' % (fam, n))
+        ctx.count('family:' + fam)
+        ctx.count('n>=129')
+        case0 = {'family': fam, 'n': n, 'node_order': order, 'lengths_along': [int(L[a, b]) for a, b in zip(order, order[1:] + ([order[0]] if ring else []))]}
+        self.check4(A, L, (BC, EBC), (BC, EBC), case0, True, t=60.0)
+
+    # ------------------------------------------------------------------ lengths that are not dyadic rationals
+    def decimal(self, Gf, fam, pinned=False):
+        """Gf: binary64 length matrix as a user would write it (0.1, 0.3, 1/3 ...).  The property is read on the lengths AS GIVEN,
+        i.e. on the exact rational values of the doubles: oracle X = oracle_pairs on Fractions of the doubles.  Oracle Fl =
+        oracle_pairs with binary64 route sums (rounding can separate / merge ties).  X == Fl: rounding does not matter, the
+        routines must return X (usual keys) and so must the rational-length model.  X != Fl: the routines are known to return
+        Fl (recorded finding, narrow keys TIE_KEY_*); anything else is an ordinary violation."""
+        ctx, bct = self.ctx, self.bct
+        Gf = np.asarray(Gf, dtype=float)
+        n = len(Gf)
+        h = jhash(['dec', [[x.hex() for x in row] for row in Gf.tolist()]])
+        if h in self.seen:
+            return
+        self.seen.add(h)
+        X = oracle_pairs(to_lx(Gf.tolist(), lambda x: F(float(x))), F(0))
+        Fl = oracle_pairs(to_lx(Gf.tolist(), float), 0.0)
+        exact = (X[0] == Fl[0] and X[1] == Fl[1])
+        ctx.count('family:' + fam.split('_')[0])
+        ctx.count('decimal:ties-exact-in-binary64' if exact else 'decimal:rounding-changes-the-ties')
+        if any(x.denominator != 1 for x in X[0]):
+            ctx.count('decimal:has_fractional_bc(ties)')
+        nontriv = any(len([d for d in row if d is not None]) >= 3 for row in X[2])
+        Gl = [[x.hex() for x in row] for row in Gf.tolist()]
+        case = {'fn': 'betweenness_wei', 'G': Gf.tolist(), 'G_hex': Gl}
+        case2 = {'fn': 'edge_betweenness_wei', 'G': Gf.tolist(), 'G_hex': Gl}
+        ctx.case(case, nontrivial=nontriv)
+        bcw = self.impl(bct.betweenness_wei, Gf, 'betweenness_wei', case, raw=True)
+        ctx.case(case2, nontrivial=nontriv)
+        r = self.impl(bct.edge_betweenness_wei, Gf, 'edge_betweenness_wei', case2, raw=True)
+        what = ('returns the betweenness of the graph whose route lengths are the left-to-right binary64 sums (%s), not of the lengths '
+                'given (%s): equal-length alternatives separated / merged by rounding')
+        if bcw is not None:
+            if close_vec(X[0], bcw):
+                pass
+            elif not exact and close_vec(Fl[0], bcw):
+                ctx.fail(TIE_KEY_N, what % ([str(x) for x in Fl[0]], [str(x) for x in X[0]]), case)
+            else:
+                ctx.fail('betweenness_wei:value', 'node betweenness differs from the pair-counting oracle: got %s want %s' % (np.asarray(bcw).tolist(), [str(x) for x in X[0]]), case)
+        if r is not None:
+            if close_mat(X[1], r[0]) and close_vec(X[0], r[1]):
+                pass
+            elif not exact and close_mat(Fl[1], r[0]) and close_vec(Fl[0], r[1]):
+                ctx.fail(TIE_KEY_E, what % ([str(x) for x in Fl[0]], [str(x) for x in X[0]]), case2)
+            else:
+                ctx.fail('edge_betweenness_wei:ebc', 'connection / node betweenness differs from the pair-counting oracle: got %s want %s' % (tolist(r), [[str(x) for x in X[0]]]), case2)
+            if bcw is not None:
+                ctx.check(np.allclose(r[1], bcw, rtol=TOL, atol=TOL), 'edge_betweenness_wei:node_vector',
+                          'node vector %s differs from betweenness_wei %s' % (np.asarray(r[1]).tolist(), np.asarray(bcw).tolist()), case2)
+        if exact or pinned:
+            Mq = [[F(float(x)) for x in row] for row in Gf.tolist()]
+            if exact:
+                self.lines.append('bc_weiq ' + enc_mat(Mq, enc_qb)); self.pend.append(('bc', 'betweenness_wei(Q model)', case, bcw))
+                self.lines.append('ebc_weiq ' + enc_mat(Mq, enc_qb)); self.pend.append(('ebc', 'edge_betweenness_wei(Q model)', case2, r))
+            else:
+                # the pinned witness: the rational-length model gives the exact answer X (and the implementation does not)
+                self.lines.append('bc_weiq ' + enc_mat(Mq, enc_qb)); self.pend.append(('bcx', 'Q model vs oracle', case, X[0]))
+        return exact
+
     def correspond(self):
         ctx = self.ctx
         res = run_model(ID, self.lines, timeout=1500)
         ctx.model_cases = len(self.lines)
-        for (kind, fn, case, got), m in zip(self.pend, res):
+        for pe, m in zip(self.pend, res):
+            kind, fn, case, got = pe[:4]
             if is_err(m):
                 ctx.mismatch('model-error', m['error'], case)
+                continue
+            if len(pe) == 5:
+                # C08_weiQ_of_fraction: rational-length model on M * 2^sp = integer-length model on M, value for value
+                ctx.count('qz_same' if m == res[pe[4]] else 'qz_DIFFERENT')
+                if m != res[pe[4]]:
+                    ctx.errors.append('rational-length model and integer-length model differ on %r' % (case,))
+            if kind == 'bcx':
+                mv = None if m is None else [dec_q(x) for x in m]
+                if mv != got:
+                    ctx.mismatch(fn, 'the rational-length model does not return the exact betweenness of the given lengths', case, None if mv is None else [str(x) for x in mv], [str(x) for x in got])
+                else:
+                    ctx.count('corr_ok:' + fn)
                 continue
             if kind == 'bc':
                 if m is None:
@@ -587,4 +964,32 @@ def run(ctx):
     for _ in range(ctx.scale(300, 2000)):
         fam, L, sp = near_tie_graph(ctx)
         R.graph(L, fam, scale_pow=sp)
+    # lengths that are not dyadic rationals: the recorded rounding finding (pinned witness first), decimal families
+    W = rounding_witness()
+    R.decimal(W, 'rounding_witness', pinned=True)
+    R.decimal(W + W.T, 'rounding_witness_und')
+    R.graph(np.round(W * 10).astype(int), 'rounding_witness_x10')          # the same graph with lengths 1,2,3: the tie is seen
+    for _ in range(ctx.scale(150, 1200)):
+        fam, Gf = decimal_graph(ctx)
+        R.decimal(Gf, fam)
+    # larger graphs against the polynomial oracle (path counts > 127), other element types, path counts > 2^24, n >= 129
+    DT = ['int64', 'bool', 'int8', 'int32', 'uint8', 'float32']
+    for i in range(ctx.scale(14, 120)):
+        fam, L = big_graph(ctx)
+        R.big(L, fam, dtypes=[DT[i % len(DT)]] if i % 2 == 0 else [])
+    for i in range(ctx.scale(18, 120)):
+        fam, L = random_graph(ctx)
+        R.big(L, 'dtype_' + fam, dtypes=[DT[i % len(DT)], DT[(i + 3) % len(DT)]])
+    R.big(g_grid_wh(r, 6, 6, [1]), 'big_grid')                  # C(10,5) = 252 routes corner to corner
+    R.big(g_grid_wh(r, 5, 7, [1]), 'big_grid', dtypes=['int8'])
+    # path counts beyond 2^24 for a large share of the pairs (every node is a source): a float32 NP is off by ~8e-9 relative here
+    R.big(g_layered(r, [7] * 11, True, ends=False), 'layered_many_paths')
+    R.big(g_layered(r, [1] + [7] * 9 + [1] * 6, True, ends=False), 'layered_many_paths')
+    for i in range(ctx.scale(0, 6)):
+        widths = [int(r.choice([3, 5, 7])) for _ in range(int(r.randint(11, 14)))]
+        R.big(g_layered(r, widths, bool(i % 2), ends=False), 'layered_many_paths')
+    R.longpath(int(r.randint(129, 141)), 'long_path')
+    if ctx.thorough:
+        R.longpath(2 * int(r.randint(65, 71)), 'long_ring')
+        R.longpath(int(r.randint(129, 141)), 'long_path')
     R.correspond()
